@@ -134,10 +134,11 @@ CHECKS = {
     "C13": dict(
         level="fault_enumeration",
         technique="crash-point enumeration over rapid-generated workloads on the composed WAL (real segment code on SimFS+SimMeta): every sampled mutating I/O event x torn-write subset, nested crashes, allowed-post-crash-state oracle from acknowledgements",
-        rule="rapid-generated workloads (appends of 1-5 entries with sizes around 0/8/segment/3/segment, head/tail/everything DeleteRange, stable Set, clean reopen) over segment sizes {1..4096}; 0-3 earlier phases each ended by a crash at a generated event with a generated torn subset, then the final phase is re-executed with a crash after each chosen event k (all k in thorough; <=32 incl. all neighbours of CommitState/Create/Unlink in quick) x 9 (quick) / 15 (thorough) tear plans (none, all, prefix, suffix, allButFirst, allButLast, onlyLast, drawn masks; directory entries kept/lost; preallocated length kept/lost). Verdict (crash part): after every successful Open the directory holds exactly the files of the segments in committed metadata; Create never hits an existing name; no segment ID is created again after it was retired from metadata or under a different base index. Non-trivial = a crash variant with an acknowledged append before it and something volatile at the crash; distinct = FNV-64 of (case, k, tear#)",
-        expect_classes=["crash-in-append", "crash-in-del", "crash-in-open", "crash-in-background-or-between-ops", "crash-in-set", "clean-reopen", "head-trunc", "tail-trunc", "nested-depth>=2", "nested-depth>=3", "crash-after-CommitState", "crash-after-Create", "crash-after-WriteAt", "crash-after-SyncFile", "crash-after-SyncDir", "crash-after-Unlink", "crash-after-UnlinkDirSync"],
+        rule="rapid-generated workloads (appends of 1-5 entries with sizes around 0/8/segment/3/segment, head/tail/everything DeleteRange, stable Set, clean reopen) over segment sizes {1..4096}; 0-3 earlier phases each ended by a crash at a generated event with a generated torn subset, then the final phase is re-executed with a crash after each chosen event k (all k in thorough; <=32 incl. all neighbours of CommitState/Create/Unlink in quick) x 9 (quick) / 15 (thorough) tear plans (none, all, prefix, suffix, allButFirst, allButLast, onlyLast, drawn masks; directory entries kept/lost; preallocated length kept/lost). Verdict (crash part): after every successful Open the directory holds exactly the files of the segments in committed metadata; Create never hits an existing name; no segment ID is created again after it was retired from metadata or under a different base index. Reclamation part (sched.TestC13Pinned): 0-4 readers are parked inside the ReadAt of their GetLog (SimFS gate) while a head/tail/everything DeleteRange runs: it must return without waiting for them, the pinned reads then finish with a correct entry / not-found / an error only for removed indexes, and afterwards the directory equals the metadata's file set, no wholly-deleted segment is listed and exactly one handle per live segment is open. Non-trivial = a crash variant with an acknowledged append before it and something volatile at the crash; distinct = FNV-64 of (case, k, tear#)",
+        expect_classes=["crash-in-append", "crash-in-del", "crash-in-open", "crash-in-background-or-between-ops", "crash-in-set", "clean-reopen", "head-trunc", "tail-trunc", "nested-depth>=2", "nested-depth>=3", "crash-after-CommitState", "crash-after-Create", "crash-after-WriteAt", "crash-after-SyncFile", "crash-after-SyncDir", "crash-after-Unlink", "crash-after-UnlinkDirSync", "truncation-with-pinned-reader", "files-deleted", "trunc:head", "trunc:tail", "trunc:all"],
         assumptions=COMMON_ASSUME + SIM_ASSUME + ["crash model = the one the properties name: every subset of 8-byte-aligned chunks of un-synced writes, pending directory operations kept or lost, file length; garbled sector contents are not generated", "mutating I/O is issued by one goroutine at a time (the harness waits for the background rotation after each append), so event numbering is deterministic"],
-        jobs=[dict(pkg="crash", run="TestCrashC13", checks_quick=30, checks_thorough=500, shards_quick=16, shards_thorough=16, shrinktime="15s", timeout_quick=600, timeout_thorough=3000)],
+        jobs=[dict(pkg="crash", run="TestCrashC13", checks_quick=30, checks_thorough=500, shards_quick=16, shards_thorough=16, shrinktime="15s", timeout_quick=600, timeout_thorough=3000),
+              dict(pkg="sched", run="TestC13Pinned", checks_quick=40, checks_thorough=800, shards_quick=6, shards_thorough=16, shrinktime="20s", timeout_quick=600, timeout_thorough=3000)],
     ),
     "C10": dict(
         level="fault_enumeration",
